@@ -268,6 +268,54 @@ Fixpoint feed_cap (cap : nat) (svc : service) (st : fstate) (chunks : list bytes
 Definition feed_all_cap (cap : nat) (svc : service) (chunks : list bytes) : fstate * bytes :=
   feed_cap cap svc fs_init (chunks ++ [[]]).
 
+(* ---- the careful caller (the one the harness uses, and what listen() amounts to with its persistent reader):
+   besides the returned tail it keeps what handle() left unread in the reader it was given. [handle_cap_rem] returns
+   that remainder too: the part of the slice the inner block buffer never pulled in. ---- *)
+Fixpoint handle_loop_cap_rem (cap : nat) (f : nat) (svc : service) (pos : nat) (s : bytes) : bytes * hres * bytes :=
+  match f with
+  | O => ([], HFuel, [])
+  | S f' =>
+      match cut_nul s with
+      | None => ([], HOk s None, [])
+      | Some (frame, rest) =>
+          match decode_request frame with
+          | Ok q =>
+              let '(o, oc) := serve svc q in
+              let pos' := (pos + S (length frame))%nat in
+              match oc with
+              | OCont => let '(o2, r, rem) := handle_loop_cap_rem cap f' svc pos' rest in (o ++ o2, r, rem)
+              | OUpgrade i => (o, HOk (firstn (block_room cap pos') rest) (Some i), skipn (block_room cap pos') rest)
+              | OFail => (o, HErr, [])
+              end
+          | _ => ([], HErr, [])
+          end
+      end
+  end.
+
+Definition handle_cap_rem (cap : nat) (svc : service) (upg : option bytes) (s : bytes) : bytes * hres * bytes :=
+  match upg with
+  | Some i => (upgraded_out svc i s, HOk [] (Some i), [])
+  | None => handle_loop_cap_rem cap (S (length s)) svc O s
+  end.
+
+Definition feed_step_careful (cap : nat) (svc : service) (st : fstate) (chunk : bytes) : fstate * bytes :=
+  if fs_closed st then (st, [])
+  else let '(o, r, rem) := handle_cap_rem cap svc (fs_upg st) (fs_tail st ++ chunk) in
+       match r with
+       | HOk t u => (mkfs (t ++ rem) u false, o)
+       | _ => (mkfs [] None true, o)
+       end.
+
+Fixpoint feed_careful (cap : nat) (svc : service) (st : fstate) (chunks : list bytes) : fstate * bytes :=
+  match chunks with
+  | [] => (st, [])
+  | c :: r => let '(st1, o1) := feed_step_careful cap svc st c in
+              let '(st2, o2) := feed_careful cap svc st1 r in (st2, o1 ++ o2)
+  end.
+
+Definition feed_all_careful (cap : nat) (svc : service) (chunks : list bytes) : fstate * bytes :=
+  feed_careful cap svc fs_init (chunks ++ [[]]).
+
 (* the largest buffer the transient-slice caller ever hands to handle(): bounded by the whole stream *)
 Definition bufreader_capacity : nat := N.to_nat 8192.
 
